@@ -1,6 +1,8 @@
 use crate::fw::*;
 use serde_json::Value;
 
+pub mod c02;
+pub mod c04;
 pub mod c15;
 pub mod c19;
 
@@ -22,6 +24,8 @@ macro_rules! table {
 }
 
 table! {
+    "C02" => c02,
+    "C04" => c04,
     "C15" => c15,
     "C19" => c19,
 }
